@@ -123,15 +123,10 @@ func zzCallables() []zzCallable {
 	return cs
 }
 
-// zzC02Known is the region predicate of the recorded crash findings: (callable, argument kinds).
+// zzC02Known is the region predicate of recorded crash findings keyed by (callable, argument
+// kinds). It is empty now: the zero-argument set methods (nil interface call) and
+// rsplit(None, huge) (makeslice panic) were repaired in /repo (known_findings.json "fixed").
 func zzC02Known(name string, kinds []int) bool {
-	switch name {
-	case "set.difference", "set.intersection", "set.issubset", "set.issuperset", "set.symmetric_difference":
-		return len(kinds) == 0 // zero arguments: nil interface call
-	case "string.rsplit", "string.split":
-		// huge maxsplit with separator None: preallocation make([]string, 0, maxsplit+1)
-		return len(kinds) == 2 && kinds[0] == 0 && kinds[1] == 3
-	}
 	return false
 }
 
